@@ -140,7 +140,42 @@ def run(tier, seed, replay=None):
         if len(samples) < 3:
             samples.append({"case": name, "feature_table": prog.feature_text, "c16": res})
         shutil.rmtree(d, ignore_errors=True)
+    # fixed programs compiled three times in a chain: the name table must stop growing after the first generation
+    CHAIN = {
+        "negative_setting_value": 'table(feature) f1 { id = 100; name.1033 = string("Feat"); settings { a { value = -1; name.1033 = string("MinusOne") } b { value = 0; name.1033 = string("Zero") } } default = b; } endtable;\n',
+        "setting_value_65535": 'table(feature) f1 { id = 100; name.1033 = string("Feat"); settings { a { value = 65535; name.1033 = string("Top") } b { value = 0; name.1033 = string("Zero") } } default = b; } endtable;\n',
+        "feature_without_settings": 'table(feature) f1 { id = 100; name.1033 = string("Alone"); } f2 { id = 101; name.1033 = string("Second"); name.1036 = string("Deuxieme"); } endtable;\n',
+    }
+    for cname, ftext in sorted(CHAIN.items()):
+        for plats in (((1, 0, 0), (3, 1, 1033)), ((3, 1, 1033),), ((3, 0, 1033),)):
+            d = os.path.join(work, "chain_%s_%d" % (cname, len(plats) * 10 + plats[-1][1]))
+            os.makedirs(d)
+            shutil.copy(common.STDDEF, d)
+            open(os.path.join(d, "in.ttf"), "wb").write(ttf.simple_font(20, names=ttf.default_names("Verif", platforms=plats), symbol=(plats[-1][1] == 0))[0])
+            open(os.path.join(d, "p.gdl"), "w").write('#include "stddef.gdh"\n' + ftext + 'table(glyph) cA = glyphid(3); cB = glyphid(4); endtable;\ntable(sub) cA > cB; endtable;\n')
+            counts = []
+            src = "in.ttf"
+            for g in (1, 2, 3):
+                rcg, _, _ = common.run_grc(build, d, ["-q", "p.gdl", src, "g%d.ttf" % g])
+                if rcg != 0:
+                    counts.append(None)
+                    break
+                tg, _ = ttf.parse(open(os.path.join(d, "g%d.ttf" % g), "rb").read())
+                counts.append(len(ttf.parse_name(tg[b"name"])))
+                src = "g%d.ttf" % g
+            stats["chains"] += 1
+            if None in counts:
+                rep.violation("chain-%s-%s" % (cname, plats[-1][1]), {"program": cname, "name_platforms": plats, "problem": "a generation of the chain is refused", "name_records_per_generation": counts})
+            elif len(set(counts)) != 1:
+                dd = os.path.join(rep.replay_dir, "C16-%s-chain-%s-%d" % (seed, cname, len(plats) * 10 + plats[-1][1]))
+                shutil.rmtree(dd, ignore_errors=True)
+                shutil.copytree(d, dd)
+                rep.violation("chain-%s-%d" % (cname, len(plats) * 10 + plats[-1][1]), {"program": cname, "name_platforms": plats, "name_records_per_generation": counts,
+                                                                   "meaning": "compiling the compiler's own output with the same program adds name records again: labels already in the font are not reused",
+                                                                   "rerun": "cd %s && grcompiler -q p.gdl in.ttf g1.ttf && grcompiler -q p.gdl g1.ttf g2.ttf" % dd})
+            shutil.rmtree(d, ignore_errors=True)
     rep.coverage.update({
+        "recompilation_chains_of_fixed_programs": stats["chains"],
         "programs": n, "fonts_checked": stats["fonts"], "rejected": stats["rejected"],
         "traces_validated_against_impl": stats["fonts"], "disagreements_checked": len(rep.violations),
         "evaluations": stats["fonts"], "distinct_nontrivial": len(distinct),
